@@ -128,6 +128,7 @@ class C01(Check):
 
     def execute(self, case, env):
         out = self._execute(case, env)
+        arch.absorb_destructor_error()
         return arch.tag_kf47(out, [(case["filters"], [arch.member_bytes(m) for m in case["members"]])])
 
     def _execute(self, case, env):
@@ -179,6 +180,7 @@ class C01(Check):
                         arch.write_member(z, m, work)
                     z.close()
                 except UnsupportedCompressionMethodError as e:
+                    arch.drain_compressors(z)
                     # the chain is only examined when the first member is written: same verdict as a rejection at open
                     out.label("rejected_config")
                     out.nontrivial = False
@@ -186,6 +188,7 @@ class C01(Check):
                         out.violate({"kind": "documented-chain-rejected", "chain": fam}, observed=repr(e)[:200], expected="accepted")
                     return out
                 except Exception as e:
+                    arch.drain_compressors(z)
                     cls, frame = arch.exc_sig(e)
                     sig = dict(sig_base, kind="write-raises", exc=cls, frame=frame)
                     if case["target"] == "multivolume":
